@@ -5,8 +5,10 @@ import PGA.Model.Units
 An operand is what `_unpack_qty` makes of it: a value (a scalar, or a one-dimensional array with
 one shared dimension) and a `FundamentalUnits`; a plain number / `ndarray` has the null units.
 Operators are modelled method by method, as written, *after the repairs* F10 (`__lt__` returned `>`,
-`__gt__` was missing) and F11 (the compatibility guard accepted any zero-valued operand): the
-shared guard is `compatible`.  `binop` adds Python's dispatch: the left operand's method if it is a
+`__gt__` was missing), F11 (the compatibility guard accepted any zero-valued operand) and FU5
+(`FundamentalUnits.__eq__` compared the exponent arrays exactly; it now accepts a difference of at most
+`THRESHOLD_INTEGER` in every exponent, which is what division followed by `_build` decides): the
+shared guard is `compatible`, the equality of units is `sameUnits`.  `binop` adds Python's dispatch: the left operand's method if it is a
 quantity, otherwise the right operand's reflected method.
 -/
 namespace PGA.Qty
@@ -63,10 +65,18 @@ def compare (f : Rat → Rat → Bool) (a b : Num) : Option Out := zipNum f Out.
 /-- `bool(units)` -/
 def hasUnits (d : Dim) : Bool := !d.isZero
 
-/-- the repaired guard shared by `== != < <= > >= + -` (and their reflections): the other operand is
-acceptable iff it has the same units, or it is a *bare* zero (no units, zero value) -/
-def compatible (self other : Q) : Bool :=
-  if hasUnits other.dim then self.dim == other.dim else other.val.isZero
+/-- `FundamentalUnits.__eq__` (repaired, FU5): `(np.abs(self.exps - other.exps) <= THRESHOLD_INTEGER).all()` —
+every exponent of the one within `thr` of the same exponent of the other (`__ne__` is its negation) -/
+def sameUnits (thr : Rat) (a b : Dim) : Bool :=
+  (Dim.zip (· - ·) a b).toList.all (fun d => decide (absR d ≤ thr))
+
+/-- `GenericQuantity.has_units(units)` with `units` evaluated to a quantity / number `u`: `self_units == units_of(u)` -/
+def hasUnitsOf (thr : Rat) (a u : Q) : Bool := sameUnits thr a.dim u.dim
+
+/-- the repaired guard shared by `== != < <= > >= + -` (and their reflections), `_compatible`: the other operand is
+acceptable iff it has the same units (`self.has_units(other_units)`), or it is a *bare* zero (no units, zero value) -/
+def compatible (thr : Rat) (self other : Q) : Bool :=
+  if hasUnits other.dim then sameUnits thr self.dim other.dim else other.val.isZero
 
 /-- `_build(value, units)` -/
 def build (v : Option Num) (d : Dim) : Out :=
@@ -80,35 +90,35 @@ def ofCmp (r : Option Out) : Out :=
   | none => .err .broadcast
 
 /-- `__eq__` -/
-def eq (a b : Q) : Out :=
-  if !compatible a b then .bool false else ofCmp (compare (fun x y => x == y) a.val b.val)
+def eq (thr : Rat) (a b : Q) : Out :=
+  if !compatible thr a b then .bool false else ofCmp (compare (fun x y => x == y) a.val b.val)
 /-- `__ne__` -/
-def ne (a b : Q) : Out :=
-  if !compatible a b then .bool true else ofCmp (compare (fun x y => x != y) a.val b.val)
+def ne (thr : Rat) (a b : Q) : Out :=
+  if !compatible thr a b then .bool true else ofCmp (compare (fun x y => x != y) a.val b.val)
 /-- `__lt__` (repaired: returns `<`) -/
-def lt (a b : Q) : Out :=
-  if !compatible a b then .err .unitsError else ofCmp (compare (fun x y => decide (x < y)) a.val b.val)
+def lt (thr : Rat) (a b : Q) : Out :=
+  if !compatible thr a b then .err .unitsError else ofCmp (compare (fun x y => decide (x < y)) a.val b.val)
 /-- `__le__` -/
-def le (a b : Q) : Out :=
-  if !compatible a b then .err .unitsError else ofCmp (compare (fun x y => decide (x ≤ y)) a.val b.val)
+def le (thr : Rat) (a b : Q) : Out :=
+  if !compatible thr a b then .err .unitsError else ofCmp (compare (fun x y => decide (x ≤ y)) a.val b.val)
 /-- `__gt__` (added by the repair) -/
-def gt (a b : Q) : Out :=
-  if !compatible a b then .err .unitsError else ofCmp (compare (fun x y => decide (x > y)) a.val b.val)
+def gt (thr : Rat) (a b : Q) : Out :=
+  if !compatible thr a b then .err .unitsError else ofCmp (compare (fun x y => decide (x > y)) a.val b.val)
 /-- `__ge__` -/
-def ge (a b : Q) : Out :=
-  if !compatible a b then .err .unitsError else ofCmp (compare (fun x y => decide (x ≥ y)) a.val b.val)
+def ge (thr : Rat) (a b : Q) : Out :=
+  if !compatible thr a b then .err .unitsError else ofCmp (compare (fun x y => decide (x ≥ y)) a.val b.val)
 /-- `__add__`: `_build(self_value + other_value, self_units)` -/
-def add (a b : Q) : Out :=
-  if !compatible a b then .err .unitsError else build (arith (· + ·) a.val b.val) a.dim
+def add (thr : Rat) (a b : Q) : Out :=
+  if !compatible thr a b then .err .unitsError else build (arith (· + ·) a.val b.val) a.dim
 /-- `__radd__`: `_build(other_value + self_value, self_units)` -/
-def radd (a b : Q) : Out :=
-  if !compatible a b then .err .unitsError else build (arith (· + ·) b.val a.val) a.dim
+def radd (thr : Rat) (a b : Q) : Out :=
+  if !compatible thr a b then .err .unitsError else build (arith (· + ·) b.val a.val) a.dim
 /-- `__sub__` -/
-def sub (a b : Q) : Out :=
-  if !compatible a b then .err .unitsError else build (arith (· - ·) a.val b.val) a.dim
+def sub (thr : Rat) (a b : Q) : Out :=
+  if !compatible thr a b then .err .unitsError else build (arith (· - ·) a.val b.val) a.dim
 /-- `__rsub__`: `_build(other_value - self_value, self_units)` -/
-def rsub (a b : Q) : Out :=
-  if !compatible a b then .err .unitsError else build (arith (· - ·) b.val a.val) a.dim
+def rsub (thr : Rat) (a b : Q) : Out :=
+  if !compatible thr a b then .err .unitsError else build (arith (· - ·) b.val a.val) a.dim
 /-- `__mul__` -/
 def mul (thr : Rat) (a b : Q) : Out := build (arith (· * ·) a.val b.val) (Dim.mul thr a.dim b.dim)
 /-- `__rmul__`: `_build(other_value*self_value, other_units*self_units)` -/
@@ -183,11 +193,11 @@ operand's method; if the left operand is a plain number / ndarray, the right ope
 def binop (thr : Rat) (op : Op) (a b : Q) : Out :=
   if hasUnits a.dim then
     match op with
-    | .eq => eq a b | .ne => ne a b | .lt => lt a b | .le => le a b | .gt => gt a b | .ge => ge a b
-    | .add => add a b | .sub => sub a b | .mul => mul thr a b | .div => div thr a b | .pow => pow thr a b
+    | .eq => eq thr a b | .ne => ne thr a b | .lt => lt thr a b | .le => le thr a b | .gt => gt thr a b | .ge => ge thr a b
+    | .add => add thr a b | .sub => sub thr a b | .mul => mul thr a b | .div => div thr a b | .pow => pow thr a b
   else
     match op with
-    | .eq => eq b a | .ne => ne b a | .lt => gt b a | .le => ge b a | .gt => lt b a | .ge => le b a
-    | .add => radd b a | .sub => rsub b a | .mul => rmul thr b a | .div => rdiv thr b a | .pow => rpow b a
+    | .eq => eq thr b a | .ne => ne thr b a | .lt => gt thr b a | .le => ge thr b a | .gt => lt thr b a | .ge => le thr b a
+    | .add => radd thr b a | .sub => rsub thr b a | .mul => rmul thr b a | .div => rdiv thr b a | .pow => rpow b a
 
 end PGA.Qty
